@@ -6,9 +6,9 @@
    convergence / callback decision sequence, mask and sparsity setting and every iteration budget.  pre / pre_on is
    parafac's orthogonalise hook (an arbitrary replacement of every NON-FIXED factor, commit ef1ea18), ls_on / lsf its
    line search. *)
-From Coq Require Import List Arith Bool Ring ZArith.
+From Coq Require Import List Arith Bool Ring ZArith Relations.
 From TLV Require Import Base.Shape Base.PyList Base.Tensor Base.BigSum Model.WarmStart Proofs.WarmStartProofs
-  Proofs.WarmStartProofs2 Proofs.WarmStartTucker Proofs.WarmStartP2 Proofs.WarmStartEndToEnd Proofs.WarmStartSrc.
+  Proofs.WarmStartProofs2 Proofs.WarmStartTucker Proofs.WarmStartP2 Proofs.WarmStartEndToEnd Proofs.WarmStartSrc Proofs.WarmStartReq Proofs.WarmStartNorm Proofs.WarmStartHalsSem.
 Import ListNotations.
 
 (* (i) the tensor represented by the initialisation, weights absorbed into the last factor *)
@@ -601,3 +601,136 @@ Example C14_nonvacuous_parafac2_start :
   p2_start 1%Z (fun B => (B, B)) 2 clip true (Some [0; 2]) init
     = Ok (mkp2 [2; -3]%Z [[[1; 0]]; [[-1; 2]; [3; -4]]; [[1; 0]]]%Z [[[1; 0]; [0; 1]]%Z]).
 Proof. vm_compute. split; reflexivity. Qed.
+
+(* ---- request lists as the caller writes them (integers): entries outside range(ndim), negative ones included, name no mode.
+   A valid request is accepted by every driver and is the list itself ... *)
+Theorem C14_request_valid : forall a n (fixed : list Z), forallb (names_mode n) fixed = true -> request a n fixed = Ok (map Z.to_nat fixed).
+Proof. exact request_valid. Qed.
+Print Assumptions C14_request_valid.
+
+(* ... the drivers that do not index a list with the entries accept every request ... *)
+Theorem C14_request_never_raises : forall a n (fixed : list Z), indexes_list a = false -> request a n fixed = Ok (map (as_mode n) fixed).
+Proof. exact request_never_raises. Qed.
+Print Assumptions C14_request_never_raises.
+
+(* ... an entry that names no mode is ignored (same update list as without it; any driver, any position, any multiplicity) ... *)
+Theorem C14_nonmode_entries_ignored : forall a n fixed, modes_list a n fixed = modes_list a n (filter (fun x => Nat.ltb x n) fixed).
+Proof. exact modes_list_ignores_nonmodes. Qed.
+Print Assumptions C14_nonmode_entries_ignored.
+
+Theorem C14_nonmode_entry_disables_shortcut : forall fixed n x, In x fixed -> n <= x -> names_every_mode fixed n = false.
+Proof. exact shortcut_needs_modes_only. Qed.
+Print Assumptions C14_nonmode_entry_disables_shortcut.
+
+Theorem C14_request_entry_names_no_mode : forall n z, names_mode n z = false -> n <= as_mode n z.
+Proof. exact as_mode_no_mode. Qed.
+Print Assumptions C14_request_entry_names_no_mode.
+
+(* ... hence a NEGATIVE index does not fix the mode it denotes in Python's convention (genuine defect, known finding
+   fixed_modes_negative_index_ignored): fixed_modes=[-1] of non_negative_parafac_hals and [-2] of parafac leave that mode in the update list *)
+Theorem C14_negative_index_refuted :
+  request NNHals 3 [(-1)%Z] = Ok [4] /\ In (py_index 3 (-1)%Z) (modes_list NNHals 3 [4]) /\
+  request Parafac 3 [(-2)%Z] = Ok [5] /\ In (py_index 3 (-2)%Z) (modes_list Parafac 3 [5]).
+Proof. exact negative_index_counterexample. Qed.
+Print Assumptions C14_negative_index_refuted.
+
+Example C14_nonvacuous_request :
+  request Parafac 3 [0; 5; -1]%Z = Ok [0; 5; 4] /\ request NNHals 3 [0; 5]%Z = Err /\ request NNHals 3 [0; -3]%Z = Ok [0; 6] /\
+  request NTDHals 3 [-4]%Z = Err /\ modes_list Parafac 3 [0; 5; 4] = [1; 2] /\ modes_list NNHals 3 [0; 6] = [1; 2] /\
+  forallb (names_mode 3) [2; 0]%Z = true /\ request NNHals 3 [2; 0]%Z = Ok [2; 0].
+Proof. vm_compute. repeat split. Qed.
+
+(* ---- normalize_factors=True with fixed modes.  cp_normalize / tucker_normalize rescale EVERY factor, so a fixed factor is not
+   returned bit-identical (C14_fixed_modes_normalize_refuted; known findings normalize_factors_rescales_fixed_factor).  What does
+   hold, for every normalisation setting: any preorder Rel that the normalisation respects factor by factor relates the supplied
+   factor of a fixed mode to the returned one -- every driver, update rule, hook, decision sequence and budget ... *)
+Theorem C14_fixed_modes_any_preorder : forall (M W X : Type) upd stop (normf : st M W X -> st M W X) normalize pre pre_on post ls_on ls_accept
+  lsf lsw lsx (d : M) (Rel : M -> M -> Prop),
+  (forall x, Rel x x) -> (forall x y z, Rel x y -> Rel y z -> Rel x z) ->
+  (forall s m, Rel (nth m (facs s) d) (nth m (facs (normf s)) d)) -> (forall s, length (facs (normf s)) = length (facs s)) ->
+  forall a n fixed budget tol (s s' : st M W X) m, (has_hooks a = true -> forall it s x, lsf it s x x = x) ->
+  run upd stop normf normalize pre pre_on post ls_on ls_accept lsf lsw lsx a n fixed budget tol s = Ok s' ->
+  In m (eff_fixed a n fixed) -> Rel (nth m (facs s) d) (nth m (facs s') d).
+Proof. exact @run_fixed_rel. Qed.
+Print Assumptions C14_fixed_modes_any_preorder.
+
+(* ... in particular, when the normalisation rescales columns (what cp_normalize / tucker_normalize do), the factor of a fixed mode is
+   returned as the supplied one up to finitely many column rescalings: its column directions are fixed *)
+Theorem C14_fixed_modes_normalized : forall (F : Type) (mul : F -> F -> F) (W X : Type) upd stop
+  (normf : st (list (list F)) W X -> st (list (list F)) W X) normalize pre pre_on post ls_on ls_accept lsf lsw lsx
+  a n fixed budget tol (s s' : st (list (list F)) W X) m,
+  (forall s m, exists c, nth m (facs (normf s)) [] = scale_cols mul (nth m (facs s) []) c) ->
+  (forall s, length (facs (normf s)) = length (facs s)) ->
+  (has_hooks a = true -> forall it s x, lsf it s x x = x) ->
+  run upd stop normf normalize pre pre_on post ls_on ls_accept lsf lsw lsx a n fixed budget tol s = Ok s' ->
+  In m (eff_fixed a n fixed) -> rescaled mul (nth m (facs s) []) (nth m (facs s') []).
+Proof. exact fixed_modes_normalized. Qed.
+Print Assumptions C14_fixed_modes_normalized.
+
+Example C14_nonvacuous_normalized :
+  let normf := fun s : st (list (list nat)) unit unit => mkst (wts s) (map (fun A => scale_cols Nat.mul A [2; 2]) (facs s)) (aux s) in
+  (forall s m, exists c, nth m (facs (normf s)) [] = scale_cols Nat.mul (nth m (facs s) []) c) /\
+  (forall s, length (facs (normf s)) = length (facs s)) /\
+  run (fun _ _ s => ([[7; 7]], tt)) (fun _ _ => false) normf true (fun _ _ _ => []) (fun _ => false) (fun _ _ => tt) (fun _ => false)
+      (fun _ _ _ => false) (fun _ _ l c => c) (fun _ _ l c => c) (fun _ _ _ => tt) Parafac 2 [0] 1 true (mkst tt [[[1; 3]]; [[5; 5]]] tt)
+  = Ok (mkst tt [[[2; 6]]; [[14; 14]]] tt).
+Proof.
+  split; [|split; [intros s; cbn [facs]; apply map_length | vm_compute; reflexivity]].
+  intros s m. exists [2; 2]. cbn [facs].
+  change (@nil (list nat)) with ((fun A => scale_cols Nat.mul A [2; 2]) []) at 1. apply map_nth.
+Qed.
+
+(* parafac2 start state for the three kinds of initialisation (user-supplied / built-in random / built-in svd): a user-supplied
+   decomposition, or any initialisation without nn_modes, is the initialiser's answer unchanged; init="random" projects the factors of
+   the modes in nn_modes; init="svd" additionally recomputes the projections from the projected factors *)
+Theorem C14_parafac2_start_kind_user : forall (F : Type) (one : F) qr rank clip proj nn (init : p2init F),
+  p2_start_kind one qr rank clip proj UserInit nn init = p2_init one qr rank init.
+Proof. exact @p2_start_kind_user. Qed.
+Print Assumptions C14_parafac2_start_kind_user.
+
+Theorem C14_parafac2_start_kind_no_nn : forall (F : Type) (one : F) qr rank clip proj kind (init : p2init F),
+  p2_start_kind one qr rank clip proj kind None init = p2_init one qr rank init.
+Proof. exact @p2_start_kind_no_nn. Qed.
+Print Assumptions C14_parafac2_start_kind_no_nn.
+
+Theorem C14_parafac2_start_kind_random : forall (F : Type) (one : F) qr rank clip proj ms (init : p2init F),
+  p2_start_kind one qr rank clip proj BuiltinRandom (Some ms) init = p2_start one qr rank clip true (Some ms) init.
+Proof. exact @p2_start_kind_random. Qed.
+Print Assumptions C14_parafac2_start_kind_random.
+
+Theorem C14_parafac2_start_kind_svd : forall (F : Type) (one : F) qr rank clip proj ms (init : p2init F) s,
+  p2_start_kind one qr rank clip proj BuiltinSvd (Some ms) init = Ok s ->
+  exists s0, p2_init one qr rank init = Ok s0 /\ p2w s = p2w s0 /\ p2f s = clip_modes clip ms 0 (p2f s0) /\ p2P s = proj (p2f s).
+Proof. exact @p2_start_kind_svd. Qed.
+Print Assumptions C14_parafac2_start_kind_svd.
+
+(* ---- the block of non_negative_parafac_hals in front of initialize_cp, semantically: for ANY function pre that sends non-unit
+   weights into an UPDATED mode and leaves them to initialize_cp only when the last mode is free, the weights are unit or nothing is
+   updated (hals_pre_ok; the regenerated block is proved to be one on every run, and so is the model's), the start state represents the
+   supplied tensor and every fixed mode -- the last included -- is returned as supplied *)
+Theorem C14_hals_block_represents : forall (F : Type) (rO rI : F) (radd rmul rsub : F -> F -> F) (ropp : F -> F),
+  ring_theory rO rI radd rmul rsub ropp (@eq F) ->
+  forall (eqb : F -> F -> bool), (forall x y, eqb x y = true <-> x = y) ->
+  forall pre, hals_pre_ok pre ->
+  forall R n fixed (w : list F) (fs : list (matrix (F := F))) idx, fs <> [] -> length w = R -> n = length fs ->
+  cp_entry rO rI radd rmul R (fst (init_hals_gen rI rmul eqb pre R n fixed (Some w) fs)) (snd (init_hals_gen rI rmul eqb pre R n fixed (Some w) fs)) idx
+  = cp_entry rO rI radd rmul R w fs idx.
+Proof. exact @init_hals_gen_represents. Qed.
+Print Assumptions C14_hals_block_represents.
+
+Theorem C14_hals_block_fixed_end_to_end : forall (F : Type) (rI : F) (rmul : F -> F -> F) (eqb : F -> F -> bool) pre, hals_pre_ok pre ->
+  forall (X : Type) upd stop normf prehook pre_on post ls_on ls_accept lsf lsw lsx n fixed budget tol R (w : option (list F))
+    (fs : list (matrix (F := F))) (x : X) s' m d,
+  (forall x y, eqb x y = true <-> x = y) ->
+  run upd stop normf false prehook pre_on post ls_on ls_accept lsf lsw lsx NNHals n fixed budget tol (start x (init_hals_gen rI rmul eqb pre R n fixed w fs)) = Ok s' ->
+  n = length fs -> In m fixed -> m < n ->
+  (modes_list NNHals n fixed <> [] \/ all_ones rI eqb (match w with None => ones rI R | Some v => v end) = true) ->
+  nth m (facs s') d = nth m fs d.
+Proof. exact hals_gen_fixed_end_to_end. Qed.
+Print Assumptions C14_hals_block_fixed_end_to_end.
+
+Theorem C14_hals_model_block_admissible : hals_pre_ok hals_pre_model /\
+  forall (F : Type) (rI : F) (rmul : F -> F -> F) (eqb : F -> F -> bool) R n fixed w (fs : list (matrix (F := F))),
+  init_hals rI rmul eqb R n fixed w fs = init_hals_gen rI rmul eqb hals_pre_model R n fixed w fs.
+Proof. exact (conj hals_pre_model_ok (@init_hals_is_gen)). Qed.
+Print Assumptions C14_hals_model_block_admissible.
